@@ -17,7 +17,7 @@ HOSTILE = ["'", "''", '"', "`", "\\", "\\'", "--", "/*", "*/", "#", ";", "\n", "
 
 class G:
     def __init__(self, rng, tables=True, strings="plain", allow_shift=True, allow_params=False, allow_case=True,
-                 allow_funcs=True, allow_neg=True, int_range=9, allow_float=True, allow_filter=False):
+                 allow_funcs=True, allow_neg=True, int_range=9, allow_float=True, allow_filter=False, allow_matchers=False):
         self.r = rng
         self.tables = tables
         self.strings = strings
@@ -29,6 +29,7 @@ class G:
         self.int_range = int_range
         self.allow_float = allow_float
         self.allow_filter = allow_filter
+        self.allow_matchers = allow_matchers
 
     # ---- leaves
     def field(self):
@@ -92,12 +93,16 @@ class G:
             ops = ARITH if self.allow_shift else ARITH[:4]
             op = r.choice(ops)
             y = r.random()
+            if op in ("<<", ">>") and r.random() < 0.3:
+                return "%s.%s(%s)" % (self.num(d - 1), "lshift" if op == "<<" else "rshift", self.num(d - 1))
             if y < 0.2:
                 return "(%s %s %s)" % (self.num(d - 1), op, self.pynum())   # raw python operand on the right
             if y < 0.3:
                 return "(%s %s %s)" % (self.pynum(), op, self.num(d - 1))   # reflected operator
             return "(%s %s %s)" % (self.num(d - 1), op, self.num(d - 1))
         if x < 0.80 and self.allow_neg:
+            if r.random() < 0.08:
+                return "(+%s)" % self.num(d - 1)          # unary plus is the identity
             return "(-%s)" % self.num(d - 1)
         if x < 0.90 and self.allow_funcs:
             y = r.random()
@@ -130,9 +135,14 @@ class G:
             y = r.random()
             if y < 0.55:
                 rhs = self.num(max(d - 1, 0)) if r.random() < 0.6 else self.pynum()
+                if r.random() < 0.12:
+                    # the named forms of the comparison operators
+                    return "%s.%s(%s)" % (self.num(max(d - 1, 0)), r.choice(["eq", "ne", "gt", "gte", "lt", "lte"]), rhs)
                 return "(%s %s %s)" % (self.num(max(d - 1, 0)), r.choice(CMP), rhs)
             if y < 0.65:
-                return "%s.like(%s)" % (self.field(), self.string())
+                m = r.choice(["like", "like", "not_like", "ilike", "not_ilike", "rlike", "regex", "regexp", "glob", "bin_regex"]) \
+                    if self.allow_matchers else "like"
+                return "%s.%s(%s)" % (self.field(), m, self.string())
             if y < 0.75:
                 n = r.choice([0, 1, 1, 2, 2, 3, 3])      # the empty list is legal: x IN ()
                 items = ", ".join(self.pynum() if r.random() < 0.7 else self.string() for _ in range(n))
